@@ -179,6 +179,7 @@ pub fn program_scenario(
         max_execs: 0,
         shards: 1,
         nontrivial: !input.is_empty(),
+        unbounded: false,
     }
 }
 
